@@ -573,6 +573,17 @@ func (c *bufioConn) Write(b []byte) (int, error) {
 	return c.Conn.Write(b)
 }
 
+// CloseWrite forwards a half-close to the wrapped connection. The relay
+// passes an end of stream on with dst.(WriteCloser); without this method the
+// assertion fails for a wrapped client connection and the client only sees
+// EOF when the half-close grace period expires.
+func (c *bufioConn) CloseWrite() error {
+	if wc, ok := c.Conn.(WriteCloser); ok {
+		return wc.CloseWrite()
+	}
+	return nil
+}
+
 func (c *bufioConn) Close() error {
 	return c.Conn.Close()
 }
